@@ -3,7 +3,8 @@
 From AV.Model Require Import Base Bytes Vec Ops Interp.
 From AV.Spec Require Import VecSpec.
 From AV.Proofs Require Import MemLemmas Rep VecProofs TempProofs RangeProofs CapProofs CloneProofs NoFault HandleProofs.
-From WIP Require Import WorldSpec WorldCore WorldSplice.
+From AV.Proofs Require Import FaultProofs LazySplice.
+From WIP Require Import WorldSpec WorldCore WorldSplice WorldRead.
 Arguments N.add : simpl never.
 Arguments N.sub : simpl never.
 Arguments N.mul : simpl never.
@@ -789,4 +790,278 @@ Proof.
   cbn [res_matches ok_res s_out s_pk s_ret s_st s_evs s_nx].
   split; [reflexivity|split; [reflexivity|split; [reflexivity|]]]. rewrite N.sub_diag.
   apply step_ok_refl; assumption.
+Qed.
+
+(** ** splice whose replacement items are lazy clones of elements of another vector *)
+Lemma lazy_events_eq srcs ids : lazy_fill_events srcs ids = sp_lazy_fill_events srcs ids.
+Proof. reflexivity. Qed.
+Lemma fresh_ids_next' c nx n : CloneProofs.fresh_ids c nx n = next_ids c nx n.
+Proof. reflexivity. Qed.
+
+Lemma splice_drop_prep_panic_lazy c v u known d srcs p cl :
+  ufuse u = None -> splice_prep c known d cl (v, u) = Panic p (v, u) ->
+  exists u', splice_drop c known d cl (map (lazy_item c) srcs) (v, u) = Panic p (v, u') /\
+    unext u' = unext u /\ ufuse u' = None /\ uevents u' = uevents u.
+Proof.
+  intros Hf Hprep. exists u. split; [|auto].
+  unfold splice_drop. apply bind_panic. unfold unwinding_st, on_unwind. rewrite Hprep.
+  unfold quiet_st. cbn [fst snd]. rewrite drop_items_lazy. cbn [fst snd]. rewrite Hf.
+  destruct u as [l nx fz]. cbn [ufuse] in Hf. subst fz. reflexivity.
+Qed.
+
+Section LazyItems.
+Variables (c : cfg) (w : world) (src : nat) (bv : avec) (vb : vec).
+Hypothesis Hgvb : get_vec src w = Some vb.
+Hypothesis HVb : VI c vb bv.
+Let ys := a_xs bv.
+
+Lemma elem_bytes_same ww k :
+  same_world w ww -> (k < length ys)%nat ->
+  Interp.elem_bytes c src (N.of_nat k) ww = Ok (enc (szn c) (nth k ys 0)) (put_vec src (Some vb) (wuw ww) ww).
+Proof.
+  intros Hs Hk.
+  assert (Hg : get_vec src ww = Some vb) by (rewrite (same_get _ _ _ Hs); exact Hgvb).
+  pose proof (rep_len _ _ _ (vi_rep _ _ _ HVb)) as Hlen. fold ys in Hlen.
+  unfold Interp.elem_bytes. unfold bind at 1. rewrite (peek_vec_ok src ww vb Hg).
+  unfold bind at 1. unfold assert_. rewrite Hlen.
+  destruct (N.ltb_spec (N.of_nat k) (N.of_nat (length ys))) as [_|Hge]; [|lia].
+  unfold ret at 1.
+  exact (on_vec_ok src _ ww vb _ vb (wuw ww) Hg (read_elem c vb (wuw ww) ys k (vi_rep _ _ _ HVb) Hk)).
+Qed.
+
+Lemma make_items_lazy : forall n i ww,
+  same_world w ww -> (0 < length ys)%nat ->
+  exists ww', make_items c (RLazy src) n (N.of_nat i) None ww
+              = Ok (map (lazy_item c) (map (fun k => nth (k mod length ys) ys 0) (seq i n))) ww' /\ same_world w ww'.
+Proof.
+  induction n as [|n IH]; intros i ww Hs Hpos.
+  - exists ww. cbn [make_items seq map]. split; [reflexivity|exact Hs].
+  - cbn [make_items seq map].
+    assert (Hg : get_vec src ww = Some vb) by (rewrite (same_get _ _ _ Hs); exact Hgvb).
+    pose proof (rep_len _ _ _ (vi_rep _ _ _ HVb)) as Hlen. fold ys in Hlen.
+    unfold bind at 1. unfold bind at 1. rewrite (peek_vec_ok src ww vb Hg).
+    assert (Hidx : (if vlen vb =? 0 then 0 else N.of_nat i mod vlen vb) = N.of_nat (i mod length ys)).
+    { rewrite Hlen. destruct (N.eqb_spec (N.of_nat (length ys)) 0) as [E|E]; [lia|].
+      rewrite <- Nat2N.inj_mod by lia. reflexivity. }
+    rewrite Hidx.
+    assert (Hk : (i mod length ys < length ys)%nat) by (apply Nat.mod_upper_bound; lia).
+    unfold bind at 1. rewrite (elem_bytes_same ww _ Hs Hk).
+    set (ww1 := put_vec src (Some vb) (wuw ww) ww).
+    assert (Hs1 : same_world w ww1) by (apply same_put; assumption).
+    unfold ret at 1.
+    replace (N.of_nat i + 1) with (N.of_nat (S i)) by lia.
+    destruct (IH (S i) ww1 Hs1 Hpos) as (ww' & E & Hs').
+    exists ww'. split; [|exact Hs'].
+    unfold bind at 1. rewrite E. reflexivity.
+Qed.
+
+Lemma make_items_lazy_empty n ww :
+  same_world w ww -> length ys = 0%nat -> (0 < n)%nat ->
+  make_items c (RLazy src) n 0 None ww = Panic PIndex ww.
+Proof.
+  intros Hs Hz Hn. destruct n as [|n]; [lia|]. cbn [make_items].
+  assert (Hg : get_vec src ww = Some vb) by (rewrite (same_get _ _ _ Hs); exact Hgvb).
+  pose proof (rep_len _ _ _ (vi_rep _ _ _ HVb)) as Hlen. fold ys in Hlen. rewrite Hz in Hlen.
+  unfold bind at 1. unfold bind at 1. rewrite (peek_vec_ok src ww vb Hg). rewrite Hlen. cbn [N.of_nat N.eqb].
+  unfold bind at 1. unfold Interp.elem_bytes. unfold bind at 1. rewrite (peek_vec_ok src ww vb Hg).
+  unfold bind at 1. unfold assert_. rewrite Hlen. cbn [N.of_nat N.ltb N.compare]. reflexivity.
+Qed.
+End LazyItems.
+
+Lemma exec_splice_lazy c w st a vid sb eb pat f src n claimed r :
+  cfg_wf c -> WRep c w st -> ufuse (wuw w) = None ->
+  sp_splice_lazy c st (unext (wuw w)) vid sb eb pat f src n claimed = Some r ->
+  adm_splice c w vid sb eb claimed ->
+  res_matches c w (exec c (OSplice a vid sb eb pat f (RLazy src) n None claimed) w) r.
+Proof.
+  intros Hwf HW Hfuse Hr Hadm. unfold sp_splice_lazy in Hr.
+  destruct (Nat.eqb_spec src vid) as [|Hnes]; [discriminate|].
+  destruct (get_a vid st) as [av|] eqn:Hg; [|discriminate].
+  destruct (get_a src st) as [bv|] eqn:Hgb; [|discriminate].
+  destruct (wrep_get c w st vid av HW Hg) as (vv & Hgv & HV).
+  destruct (wrep_get c w st src bv HW Hgb) as (vb & Hgvb & HVb).
+  pose proof (vi_rep _ _ _ HV) as HR. pose proof (rep_len _ _ _ HR) as Hlen.
+  specialize (Hadm vv Hgv). rewrite Hlen in Hadm.
+  set (xs := a_xs av) in *. set (ys := a_xs bv) in *. cbv zeta in Hr.
+  set (nn := N.to_nat n) in *.
+  set (cl := N.to_nat claimed) in *.
+  assert (Hcl' : claimed = N.of_nat cl) by (unfold cl; lia).
+  cbn [exec]. rewrite (bind_ok _ _ _ _ _ (peek_vec_ok vid w vv Hgv)).
+  destruct ((0 <? n) && (length ys =? 0)%nat) eqn:Eempty.
+  { (* the source is empty: at(0) panics before anything happens *)
+    apply andb_prop in Eempty. destruct Eempty as [E1 E2]. apply N.ltb_lt in E1. apply Nat.eqb_eq in E2.
+    injection Hr as <-.
+    rewrite (bind_panic _ _ _ _ _ (make_items_lazy_empty c w src bv vb Hgvb HVb nn w (same_refl w) E2 ltac:(unfold nn; lia))).
+    cbn [res_matches panic_res s_out s_pk s_ret s_st s_evs s_nx].
+    split; [reflexivity|split; [reflexivity|split; [reflexivity|]]]. rewrite N.sub_diag. apply step_ok_refl; assumption. }
+  set (srcs := lazy_srcs ys nn) in *.
+  assert (Hlsrcs : length srcs = nn) by (unfold srcs, lazy_srcs; rewrite map_length, seq_length; reflexivity).
+  assert (Hsrcs_tok : Forall (tok_ok (szn c)) srcs).
+  { unfold srcs, lazy_srcs. apply Forall_forall. intros x Hx. apply in_map_iff in Hx. destruct Hx as (k & <- & Hk).
+    apply in_seq in Hk. destruct (Nat.eq_dec (length ys) 0) as [Hz|Hnz].
+    - (* no item: n = 0 *) exfalso. rewrite Hz in Eempty. cbn [Nat.eqb] in Eempty. rewrite andb_true_r in Eempty.
+      apply N.ltb_ge in Eempty. unfold nn in Hk. lia.
+    - pose proof (rep_tok _ _ _ (vi_rep _ _ _ HVb)) as Ht. rewrite Forall_forall in Ht. apply Ht. apply nth_In.
+      apply Nat.mod_upper_bound. exact Hnz. }
+  assert (Hmk : exists ww, make_items c (RLazy src) nn 0 None w = Ok (map (lazy_item c) srcs) ww /\ same_world w ww).
+  { destruct (Nat.eq_dec (length ys) 0) as [Hz|Hnz].
+    - assert (Hn0 : nn = 0%nat).
+      { rewrite Hz in Eempty. cbn [Nat.eqb] in Eempty. rewrite andb_true_r in Eempty. apply N.ltb_ge in Eempty. unfold nn. lia. }
+      exists w. unfold srcs. rewrite Hn0. cbn [make_items lazy_srcs seq map]. split; [reflexivity|apply same_refl].
+    - assert (Hpos : (0 < length ys)%nat) by lia.
+      exact (make_items_lazy c w src bv vb Hgvb HVb nn 0 w (same_refl w) Hpos). }
+  destruct Hmk as (w0 & Emk & Hsame).
+  rewrite (bind_ok _ _ _ _ _ Emk).
+  set (items := map (lazy_item c) srcs).
+  assert (HW0 : WRep c w0 st) by (intros k; rewrite (proj2 Hsame k); apply HW).
+  assert (Hgv0 : get_vec vid w0 = Some vv) by (rewrite (same_get _ _ _ Hsame); exact Hgv).
+  assert (Hu0 : wuw w0 = wuw w) by (apply (proj1 Hsame)).
+  assert (Hfuse0 : ufuse (wuw w0) = None) by (rewrite Hu0; exact Hfuse).
+  assert (Hnx0 : unext (wuw w0) = unext (wuw w)) by (rewrite Hu0; reflexivity).
+  assert (Hev0 : uevents (wuw w0) = uevents (wuw w)) by (rewrite Hu0; reflexivity).
+  rewrite Hlen.
+  (* relating a result relative to w0 to the step of w *)
+  assert (Hstep : forall w' st' evs d0, step_ok c w0 w' st' evs d0 -> step_ok c w w' st' evs d0).
+  { intros w' st' evs d0 [R Nx F E]. constructor; auto; try (rewrite Nx, Hnx0; lia); try (rewrite E, Hev0; reflexivity). }
+  destruct (range_of_bounds usize_max (N.of_nat (length xs)) (to_sb sb) (to_sb eb)) as [[sN eN]|] eqn:Erb.
+  - destruct (into_range_ok _ sb eb (vv, wuw w0) sN eN Erb) as (Eir & Hse & Hel).
+    set (s := N.to_nat sN) in *. set (e := N.to_nat eN) in *.
+    assert (HsN : sN = N.of_nat s) by (unfold s; rewrite N2Nat.id; reflexivity).
+    assert (HeN : eN = N.of_nat e) by (unfold e; rewrite N2Nat.id; reflexivity).
+    assert (Hse' : (s <= e)%nat) by lia. assert (Hel' : (e <= length xs)%nat) by lia.
+    rewrite (bind_ok _ _ _ _ _ (unwinding_okw _ _ _ _ _ (on_vec_ok vid _ w0 vv _ vv (wuw w0) Hgv0 Eir))). cbn [fst snd].
+    set (w1 := put_vec vid (Some vv) (wuw w0) w0).
+    set (vr := with_len (N.of_nat s) vv).
+    pose proof (drain_new_spec c vv (wuw w0) xs s e HR Hse' Hel') as Edn. rewrite <- HsN, <- HeN in Edn.
+    rewrite (bind_ok _ _ _ _ _ (on_vec_ok vid _ w1 vv _ _ _ (get_vec_put_same vid (Some vv) (wuw w0) w0) Edn)).
+    rewrite HsN, HeN. fold vr.
+    set (w2 := put_vec vid (Some vr) (wuw w1) w1).
+    set (d := {| dcur := {| ci := N.of_nat s; ce := N.of_nat e |}; dstart := N.of_nat s; dend := N.of_nat e;
+                 dorig := N.of_nat (length xs) |}).
+    cbn [dcur].
+    assert (Hwk0 : Walking w0 vid vv s w2 []).
+    { constructor.
+      - apply get_vec_put_same.
+      - intros k Hne. unfold w2, w1, put_vec. cbn [wv]. rewrite !slot_set_nth.
+        destruct (Nat.eqb_spec k vid); [contradiction|reflexivity].
+      - reflexivity.
+      - exact Hfuse0.
+      - reflexivity. }
+    destruct (sp_walk xs pat s e) as [[[[rets ds] i'] j']|] eqn:Ewalk; [|discriminate].
+    set (finish := fun k : cursor => on_vec vid (splice_drop c (known_of a) (with_cur k d) claimed items)).
+    destruct (walk_spec c w0 vid av vv s e a HV Hse' Hel' finish pat s e w2 [] rets ds i' j'
+                Hwk0 (le_n s) Hse' (le_n e) Ewalk) as (ww' & Ew & Hwk & Hb1 & Hb2 & Hb3).
+    cbn [app] in Hwk.
+    rewrite (bind_ok _ _ _ _ _ Ew). cbn [fst snd].
+    destruct Hwk as [Hv Ho Hnx Hf He].
+    assert (Hcl : cur_len (dcur d) = N.of_nat (e - s)) by (unfold d, cur_len; cbn [dcur ci ce]; lia).
+    (* the vector as a leaked / refused iterator leaves it *)
+    assert (Hkept : forall u', WRep c (put_vec vid (Some vr) u' ww') (set_a vid (Some (with_xs av (firstn s xs))) st)).
+    { intros u' k. unfold put_vec, set_a. cbn [wv]. rewrite !slot_set_nth.
+      destruct (Nat.eqb_spec k vid) as [->|Hne].
+      - apply vi_prefix; [exact HV|exact (Nat.le_trans _ _ _ Hse' Hel')].
+      - rewrite (Ho k Hne). apply HW0. }
+    destruct f.
+    + (* the iterator is dropped *)
+      pose proof (range_alive_any c vv xs s e i' j' HR Hb1 Hb2 Hb3 Hel') as HA. fold vr in HA.
+      assert (Hnl : N.of_nat s + claimed + N.of_nat (length xs - e) = N.of_nat (s + cl + (length xs - e))) by lia.
+      rewrite Hnl in Hr.
+      assert (Hpanic : forall p, splice_prep c (known_of a) (with_cur {| ci := N.of_nat i'; ce := N.of_nat j' |} d) (N.of_nat cl) (vr, wuw ww')
+                                 = Panic p (vr, wuw ww') ->
+                r = panic_res p (flat_map (drop_ev c) ds)
+                              (set_a vid (Some (with_xs av (firstn s xs))) st) (unext (wuw w)) ->
+                res_matches c w ((finish {| ci := N.of_nat i'; ce := N.of_nat j' |};; ret (0, N.of_nat (e - s) :: rets)) ww') r).
+      { intros p Hprep ->.
+        destruct (splice_drop_prep_panic_lazy c vr (wuw ww') (known_of a) _ srcs p _ Hf Hprep) as (u' & Ed & Hn' & Hf' & He').
+        assert (Efin : finish {| ci := N.of_nat i'; ce := N.of_nat j' |} ww' = Panic p (put_vec vid (Some vr) u' ww')).
+        { unfold finish. apply (on_vec_panic vid _ ww' vr p vr u' Hv). rewrite Hcl' at 1. exact Ed. }
+        rewrite (bind_panic _ _ _ _ _ Efin).
+        cbn [res_matches panic_res s_out s_pk s_ret s_st s_evs s_nx].
+        split; [reflexivity|split; [reflexivity|split; [reflexivity|]]]. rewrite N.sub_diag.
+        apply Hstep. constructor.
+        - apply Hkept.
+        - rewrite wuw_put. lia.
+        - rewrite wuw_put. exact Hf'.
+        - rewrite wuw_put. rewrite He', He. reflexivity. }
+      rewrite Hcl.
+      destruct (N.ltb_spec usize_max (N.of_nat (s + cl + (length xs - e)))) as [Hov|Hnov].
+      * injection Hr as Hr. apply (Hpanic POverflow); [|symmetry; exact Hr].
+        apply (splice_prep_overflow c vr (wuw ww') xs s e i' j' (known_of a) cl HA Hov).
+      * destruct (match acap c (a_bk av) with Some cap => cap <? N.of_nat (s + cl + (length xs - e)) | None => false end) eqn:Ecap.
+        -- injection Hr as Hr. apply (Hpanic PCapacity); [|symmetry; exact Hr].
+           destruct (acap c (a_bk av)) as [cap|] eqn:Ea; [|discriminate].
+           apply N.ltb_lt in Ecap.
+           assert (Hcapv : vcap vv = cap). { pose proof (vi_cap _ _ _ HV) as H. rewrite Ea in H. exact H. }
+           apply (splice_prep_capacity c vr (wuw ww') xs s e i' j' (known_of a) cl HA).
+           ++ unfold vr. cbn [with_len vbk]. rewrite (vi_bk _ _ _ HV). eapply acap_fixed; eauto.
+           ++ unfold vr. cbn [with_len vcap]. lia.
+           ++ exact Hnov.
+        -- injection Hr as <-.
+           assert (Hroom : N.of_nat (s + cl + (length xs - e)) <= vcap vr \/
+                           grow_ok c vr (N.of_nat (s + cl + (length xs - e)))).
+           { destruct (acap c (a_bk av)) as [cap|] eqn:Ea.
+             - left. apply N.ltb_ge in Ecap. pose proof (vi_cap _ _ _ HV) as H. rewrite Ea in H.
+               unfold vr. cbn [with_len vcap]. lia.
+             - assert (Hnf : ~ fixed_backend (vbk vv)). { rewrite (vi_bk _ _ _ HV). eapply acap_none_not_fixed; eauto. }
+               cbv zeta in Hadm.
+               assert (Hx : sN + claimed + (N.of_nat (length xs) - eN) = N.of_nat (s + cl + (length xs - e))) by lia.
+               rewrite Hx in Hadm.
+               destruct Hadm as [H1|[H1|[H1|H1]]]; [left; exact H1|contradiction|lia|right; exact H1]. }
+           destruct (splice_drop_lazy c vr (wuw ww') xs s e i' j' (known_of a) srcs cl Hwf HA Hf Hsrcs_tok Hroom)
+             as (v' & u' & Ed & HR' & Hb' & Hn' & Hf' & He' & Hc').
+           rewrite Hlsrcs in HR', Hn', He'. rewrite Hnx, Hnx0 in HR', He'. rewrite fresh_ids_next' in HR', He'.
+           assert (Efin : finish {| ci := N.of_nat i'; ce := N.of_nat j' |} ww' = Ok tt (put_vec vid (Some v') u' ww')).
+           { unfold finish. apply (on_vec_ok vid _ ww' vr tt v' u' Hv). rewrite Hcl' at 1. exact Ed. }
+           rewrite (bind_ok _ _ _ _ _ Efin). unfold ret.
+           cbn [res_matches ok_res s_out s_pk s_ret s_st s_evs s_nx].
+           split; [reflexivity|split; [reflexivity|split; [reflexivity|]]].
+           apply Hstep. constructor.
+           ++ intros k. unfold put_vec, set_a. cbn [wv]. rewrite !slot_set_nth.
+              destruct (Nat.eqb_spec k vid) as [->|Hne].
+              ** destruct HV as [HRv Hbk Hbw Hcap Hfits]. constructor; cbn [with_xs a_bk a_xs]; auto.
+                 --- unfold vr in Hb'. cbn [with_len vbk] in Hb'. congruence.
+                 --- destruct (acap c (a_bk av)) as [cap|] eqn:Ea; [|exact I].
+                     apply N.ltb_ge in Ecap. rewrite Hc'; [unfold vr; cbn [with_len vcap]; exact Hcap|].
+                     unfold vr. cbn [with_len vcap]. lia.
+              ** rewrite (Ho k Hne). apply HW0.
+           ++ rewrite wuw_put. rewrite Hn'. cbn [s_nx ok_res]. lia.
+           ++ rewrite wuw_put. exact Hf'.
+           ++ rewrite wuw_put. rewrite He', He. rewrite !rev_app_distr. rewrite lazy_events_eq.
+              assert (Hlt : (length srcs <? cl)%nat = (n <? claimed)).
+              { rewrite Hlsrcs. unfold nn, cl. destruct (N.ltb_spec n claimed), (Nat.ltb_spec (N.to_nat n) (N.to_nat claimed)); auto; lia. }
+              rewrite Hlsrcs in Hlt. rewrite Hlt.
+              destruct (c_dg c), (n <? claimed); cbn [rev app]; rewrite <- ?app_assoc; try rewrite map_rev; reflexivity.
+    + (* the iterator is leaked *)
+      injection Hr as <-. unfold ret, bind. rewrite Hcl.
+      cbn [res_matches ok_res s_out s_pk s_ret s_st s_evs s_nx].
+      split; [reflexivity|split; [reflexivity|split; [reflexivity|]]]. rewrite N.sub_diag.
+      apply Hstep. constructor.
+      * intros k. unfold set_a. rewrite slot_set_nth.
+        destruct (Nat.eqb_spec k vid) as [->|Hne].
+        -- rewrite get_vec_slot in Hv. rewrite Hv. apply vi_prefix; [exact HV|exact (Nat.le_trans _ _ _ Hse' Hel')].
+        -- rewrite (Ho k Hne). apply HW0.
+      * lia.
+      * exact Hf.
+      * exact He.
+  - (* invalid range: panics before the vector is touched; the replacement values are destroyed *)
+    injection Hr as <-.
+    pose proof (into_range_panic _ sb eb (vv, wuw w0) Erb) as Ep.
+    pose proof (on_vec_panic vid _ w0 vv _ vv (wuw w0) Hgv0 Ep) as Ep'.
+    set (w1 := put_vec vid (Some vv) (wuw w0) w0) in *.
+    set (u' := wuw w1).
+    assert (Ecl : quiet (on_vec vid (drop_items c items)) w1 = Ok tt (put_vec vid (Some vv) u' w1)).
+    { apply quiet_none; [exact Hfuse0| |rewrite wuw_put; exact Hfuse0].
+      apply (on_vec_ok vid _ w1 vv tt vv u'); [apply get_vec_put_same|]. unfold items. apply drop_items_lazy. }
+    assert (Eu : unwinding (on_vec vid (into_range (N.of_nat (length xs)) sb eb)) (on_vec vid (drop_items c items)) w0
+                 = Panic (range_panic sb eb) (put_vec vid (Some vv) u' w1)).
+    { unfold unwinding, on_unwind. rewrite Ep'. rewrite Ecl. reflexivity. }
+    rewrite (bind_panic _ _ _ _ _ Eu).
+    cbn [res_matches panic_res s_out s_pk s_ret s_st s_evs s_nx].
+    split; [reflexivity|split; [reflexivity|split; [reflexivity|]]]. rewrite N.sub_diag.
+    apply Hstep. constructor.
+    + apply (wrep_put_same c w1 st vid vv av); [|assumption|assumption].
+      apply (wrep_put_same c w0 st vid vv av); assumption.
+    + rewrite wuw_put. unfold u', w1. rewrite wuw_put. lia.
+    + rewrite wuw_put. exact Hfuse0.
+    + rewrite wuw_put. reflexivity.
 Qed.
